@@ -49,7 +49,28 @@ claim("C20", "effect summaries (in-place write / atomic publish / tolerant read)
       "exists()-guarded in-place creation remains. Lost updates and the mtime validation of cache entries are not decided.",
       "DESIGN.md 3/C20 (A1-A3)")
 
-for _p in ["C02", "C03", "C04", "C05", "C06", "C07", "C08", "C10", "C13", "C14", "C16"]:
+claim("C02", "path enumeration with a one-variable interval domain; loop/weight pairing rule; truth-table implication over opaque atoms",
+      "Decides the weighting discipline structurally: per-read weight is 0, 1 or 1/k, 1 only when k<=1, 1/k only under the documented "
+      "strategy flags (flag table == docs/cmd.md); 1.0 is added once under a single-feature guard and 1/len(S) exactly once per "
+      "element of a loop over the same S (total contribution <= 1 per table); unique+spliced always confirms and only unconfirmed "
+      "features are zeroed. Equality of printed sums, rounding, TPM and merging are value-level and not decided.",
+      "DESIGN.md 3/C02 (W1-W3)")
+
+claim("C13", "feature-kind tag agreement at every hand-over site (AST), value-mapping table of the counter",
+      "Decides index-space agreement: a profile vector and the feature table indexed with it come from the same feature list "
+      "(exon/intron/split-exon) through constructor wiring, combined-profile fields, assignment fields, property maps and counters; "
+      "the feature table has one entry per feature in order; profile value 1 feeds only inclusion, -1 only exclusion, same index. "
+      "Whether profile values are right is not decided.",
+      "DESIGN.md 3/C13 (F1-F2)")
+
+claim("C16", "abstract evaluation of the CIGAR walkers per op and block state against the SAM consumption table",
+      "Decides: for each of the 9 CIGAR ops and both block states the query/reference cursor increments of get_read_blocks and "
+      "move_ref_coord equal the SAM table; only N and S (always) close a block, M/=/X/I/D open one; blocks are recorded in the three "
+      "parallel lists together under has_match; polyA/T trimming cuts the three lists with one slice after shifting the tail "
+      "position. Block boundaries for every CIGAR string are not decided.",
+      "DESIGN.md 3/C16 (Q1-Q2)")
+
+for _p in ["C03", "C04", "C05", "C06", "C07", "C08", "C10", "C14"]:
     na(_p, NOT_BUILT)
 
 na("C12", "equality of outputs across .gtf/.gtf.gz/.db, --complete_genedb and BAM partitions is determined by what gffutils "
